@@ -27,7 +27,7 @@ def _limits(rng):
 
 
 def plan(tier, seed):
-    cases = _sim.plan_profiles(tier, seed, WEIGHTS, 1600, 50000)
+    cases = _sim.plan_profiles(tier, seed, WEIGHTS, 5000, 60000)
     # directed case for the listed finding C01-replace-not-revalued
     return [{"seed": seed, "idx": 0, "profile": "plain", "directed": "replace"}] + cases[1:]
 
